@@ -1030,6 +1030,9 @@ pub struct VPeer {
     /// lists the requester itself among the closer nodes (what a first node does: it adds the requester
     /// to its table before it answers)
     pub echo_requester: bool,
+    /// a peer with a narrow view: asked about this target it lists exactly these peers, asked about
+    /// anything else it lists nobody
+    pub chain_for: Option<(Id, Vec<usize>)>,
 }
 
 pub struct VNet {
@@ -1057,7 +1060,7 @@ impl VNet {
             let addr = SocketAddrV4::new(ip, 6881);
             let id = Id::from_bytes(rng.id20()).expect("id");
             by_addr.insert(addr, i);
-            peers.push(VPeer { id, addr, alive: true, mode: 0, read_only: false, imm: HashMap::new(), muts: HashMap::new(), peers: HashMap::new(), speers: HashMap::new(), put_reply: 0, forge: 0, extra_delay: 0, put_delay: 0, ignore_gets: false, ignore_puts: false, ro_puts: false, echo_requester: false });
+            peers.push(VPeer { id, addr, alive: true, mode: 0, read_only: false, imm: HashMap::new(), muts: HashMap::new(), peers: HashMap::new(), speers: HashMap::new(), put_reply: 0, forge: 0, extra_delay: 0, put_delay: 0, ignore_gets: false, ignore_puts: false, ro_puts: false, echo_requester: false, chain_for: None });
         }
         VNet { peers, by_addr }
     }
@@ -1074,6 +1077,10 @@ impl VNet {
     pub fn reply(&mut self, i: usize, req: &dht::RequestSpecific, from: SocketAddrV4) -> MessageType {
         let echo = if self.peers[i].echo_requester { Some(Node::new(req.requester_id, from)) } else { None };
         let nodes = |s: &VNet, t: &Id| -> Box<[Node]> {
+            if let Some((ct, list)) = &s.peers[i].chain_for {
+                let v: Vec<Node> = if ct == t { list.iter().map(|&j| Node::new(s.peers[j].id, s.peers[j].addr)).collect() } else { vec![] };
+                return v.into_boxed_slice();
+            }
             let mut v = s.closest(t, 8);
             if let Some(e) = &echo {
                 v.retain(|n| n.address() != s.peers[i].addr || s.peers.len() > 1);
@@ -1177,7 +1184,16 @@ impl VNet {
                     return MessageType::Error(ErrorSpecific { code: 203, description: "Bad token".into() });
                 }
                 if code != 0 {
-                    return MessageType::Error(ErrorSpecific { code, description: "scripted".into() });
+                    // free text of every length and shape: short, multi-byte characters straddling the
+                    // 128th / 256th byte, long ASCII
+                    let description = match (self.peers[i].addr.ip().octets()[3] as usize + code as usize) % 5 {
+                        0 => "scripted".to_string(),
+                        1 => format!("{}é tail", "a".repeat(127)),
+                        2 => "é".repeat(150),
+                        3 => format!("{}€{}", "b".repeat(254), "c".repeat(40)),
+                        _ => "long ".repeat(80),
+                    };
+                    return MessageType::Error(ErrorSpecific { code, description });
                 }
                 match &p.put_request_type {
                     PutRequestSpecific::PutImmutable(a) => {
@@ -2394,6 +2410,92 @@ pub fn run(out: &mut Out, seed: u64, thorough: bool, replay: Option<&str>) {
         d.finish();
         d.out.mark_distinct(fnv(format!("K{round}").as_bytes()));
         d.out.count("mixed-secure-network");
+        d.s.shutdown();
+    }
+    // ---- K2 (C06): calls on the node's own id are in flight at the very moment the confirming self-ping
+    //          makes the node take a new id for its address: they still return
+    for round in 0..(if thorough { 6 } else { 2 }) {
+        t0 += 10_000_000_000_000;
+        let net = VNet::new(&mut rng, 12 + 9 * (round % 2), false);
+        let boot = vec![net.peers[0].addr];
+        let mut d = Driver::new(out, rng.next(), net);
+        d.reachable = true;
+        d.begin_at("c", &boot, None, Some(Ipv4Addr::new(45, 9, 9, 9)), rng.next() % 1_000_000 + 1, t0);
+        let mut asked = false;
+        for _ in 0..(if thorough { 600 } else { 400 }) {
+            d.pump(MS);
+            d.run("snap".into());
+            if asked {
+                continue;
+            }
+            if let (Some(sn), Some(own)) = (d.s.last_snapshot.clone(), d.s.own_id) {
+                if sn.public_address.is_some() && sn.firewalled {
+                    // the votes are in and the self-ping is on its way back
+                    d.api(format!("find_node t={}", hex(own.as_bytes())));
+                    if round % 2 == 1 {
+                        d.api(format!("get_imm t={}", hex(own.as_bytes())));
+                        d.api(format!("put_imm v={}", hex(b"stored while the node takes a new id")));
+                    }
+                    asked = true;
+                }
+            }
+        }
+        d.out.count(if asked { "calls-across-rekey" } else { "no-rekey-seen" });
+        d.settle(20 * SEC, 10 * MS);
+        d.run("snap".into());
+        d.finish();
+        d.out.mark_distinct(fnv(format!("K2{round}").as_bytes()));
+        d.s.shutdown();
+    }
+    // ---- K3 (C07): a chain of peers with narrow views.  The bootstrap node knows only N1, which holds the
+    //          value and knows only C1, which is slow and knows the two closest nodes D1 and D2.  The caller of
+    //          get_immutable is content with the first value and stops listening; the lookup must go on to
+    //          the end of the chain all the same — its result is what a later put of the target stores to
+    for round in 0..(if thorough { 4 } else { 2 }) {
+        t0 += 10_000_000_000_000;
+        let v = format!("value at the head of a chain {round}").into_bytes();
+        let target = imm_target(&v);
+        let mut net = VNet::new(&mut rng, 5, true);
+        for (j, p) in net.peers.iter_mut().enumerate() {
+            // ever closer to the target along the chain
+            let mut idb = *target.as_bytes();
+            match j {
+                0 => idb[0] ^= 0x80,
+                1 => idb[1] ^= 0x80,
+                2 => idb[5] ^= 0x80,
+                3 => idb[19] ^= 0x01,
+                _ => idb[19] ^= 0x02,
+            }
+            p.id = Id::from_bytes(idb).expect("id");
+        }
+        let chain: [Vec<usize>; 5] = [vec![1], vec![2], vec![3, 4], vec![], vec![]];
+        for (j, p) in net.peers.iter_mut().enumerate() {
+            p.chain_for = Some((target, chain[j].clone()));
+        }
+        net.peers[1].imm.insert(target, v.clone());
+        net.peers[2].extra_delay = 150 * MS;
+        if round % 2 == 1 {
+            net.peers[3].extra_delay = 80 * MS;
+        }
+        let boot = vec![net.peers[0].addr];
+        let mut d = Driver::new(out, rng.next(), net);
+        d.begin("c", &boot, None, rng.next() % 1_000_000 + 1, t0);
+        d.run_for(2 * SEC, 10 * MS);
+        d.lookup_and_check_closure(format!("get_imm t={}", hex(target.as_bytes())), &target);
+        d.run_for(2 * SEC, 10 * MS);
+        // what the finished lookup found is where the value is written next
+        let c = d.api(format!("put_imm v={}", hex(&v)));
+        d.settle(20 * SEC, 10 * MS);
+        let stored_to: std::collections::HashSet<SocketAddrV4> = d.s.all_sent.iter().filter(|x| x.key.as_deref().map(|k| k.contains("/put/")).unwrap_or(false)).map(|x| x.to).collect();
+        let ok = d.results(c).first().map(|r| r.contains(":ok:")).unwrap_or(false);
+        for j in [3usize, 4] {
+            if ok && !stored_to.contains(&d.net.peers[j].addr) {
+                d.out.violation("C07", "closest-responder-not-written", format!("put_immutable right after a lookup of its target did not write to {}, one of the two closest nodes that lookup was told about", addr_s(&d.net.peers[j].addr)));
+            }
+        }
+        d.finish();
+        d.out.mark_distinct(fnv(format!("K3{round}").as_bytes()));
+        d.out.count("chain-of-narrow-views");
         d.s.shutdown();
     }
     // ---- F2: adaptive node confirmed at address A; then its peers report another address B that is
